@@ -105,6 +105,13 @@ Definition run_case (l : list N) : list N :=
   end.
 
 (* ---- decoding a trace ---- *)
+(* count-prefixed list with a constant-time guard on the count (Wire.plist measures the rest of
+   the input for every list, which is quadratic on long traces) *)
+Definition plistb {A} (p : parser A) : parser (list A) :=
+  fun l => match l with
+           | [] => None
+           | n :: t => if 100000 <? n then None else prep (N.to_nat n) p t
+           end.
 Definition p_out : parser out :=
   let* k := pN in
   match k with
@@ -117,18 +124,18 @@ Definition p_out : parser out :=
   end.
 
 (* what the oracle needs of a dump *)
-Record dsum := mkD { d_ndials : N; d_npouts : N; d_nfuts : N; d_nrd : N; d_nrs : N }.
+Record dsum := mkD { d_ndials : N; d_npouts : N; d_nfuts : N; d_nrd : N; d_nrs : N; d_nactive : N }.
 Definition p_dump : parser dsum :=
-  let* ps := plist (let* p := pN in let* a := plist pN in let* i := plist pN in pret p) in
-  let* ds := plist (let* p := pN in let* r := plist pN in pret p) in
-  let* po := plist (let* a := pN in let* b := pN in let* c := pN in pret a) in
-  let* cs := plist pN in
+  let* ps := plistb (let* p := pN in let* a := plistb pN in let* i := plistb pN in pret (N.of_nat (length a))) in
+  let* ds := plistb (let* p := pN in let* r := plistb pN in pret p) in
+  let* po := plistb (let* a := pN in let* b := pN in let* c := pN in pret a) in
+  let* cs := plistb pN in
   let* nf := pN in let* nrd := pN in let* nrs := pN in
-  pret (mkD (N.of_nat (length ds)) (N.of_nat (length po)) nf nrd nrs).
+  pret (mkD (N.of_nat (length ds)) (N.of_nat (length po)) nf nrd nrs (fold_right N.add 0 ps)).
 
 Record ostep := mkS { o_target : option N; o_outs : list out; o_dump : dsum }.
 Definition p_steps (n : nat) : parser (list ostep) :=
-  prep n (let* t := pN in let* o := plist p_out in let* d := p_dump in pret (mkS (dec_opt t) o d)).
+  prep n (let* t := pN in let* o := plistb p_out in let* d := p_dump in pret (mkS (dec_opt t) o d)).
 
 (* ---- the oracle: the property text judged on an observed run ---- *)
 Fixpoint nodup_b (l : list N) : bool :=
@@ -162,6 +169,10 @@ Fixpoint steps_ok (mi : option N) (evs : list ev) (tr : list ostep)
   | e :: evs', s :: tr' =>
     let o := o_outs s in
     let sp' := sp ++ sent_payloads e o in
+    (* ledger: a request that is active at a peer has a substream being opened or a future in
+       flight, so "nothing outstanding" implies "nothing owed" (this is the premise under which
+       C13_exactly_one_settled applies to the quiescent runs checked below) *)
+    (if (d_npouts (o_dump s) =? 0) && (d_nfuts (o_dump s) =? 0) then d_nactive (o_dump s) =? 0 else true) &&
     (* inbound bound *)
     match mi with Some m => d_nrd (o_dump s) + d_nrs (o_dump s) <=? m | None => true end &&
     (* every terminal event answers an id that was handed out *)
